@@ -139,7 +139,8 @@ func classify(table, allow []string, name string) string {
 	return "unknown"
 }
 
-// allowShape labels (for the signature only) allow-lists with entries that are blank or only white space.
+// allowShape labels (for the signature only) allow-lists with entries that are blank or only white space,
+// and lists that name a channel more than once.
 func allowShape(allow []string) string {
 	blank, other := 0, 0
 	for _, a := range allow {
@@ -151,6 +152,13 @@ func allowShape(allow []string) string {
 	}
 	switch {
 	case blank == 0:
+		seen := map[string]bool{}
+		for _, a := range allow {
+			if seen[a] {
+				return "(allow-list-with-a-repeated-name)"
+			}
+			seen[a] = true
+		}
 		return ""
 	case other == 0:
 		return "(allow-list-of-blank-names-only)"
@@ -1635,6 +1643,7 @@ func workload(rec *vcommon.Rec) []cfgSpec {
 			cfgSpec{Kind: k, Table: []string{"ab", "echo2"}, Allows: [][]string{{"a", "echo"}}, Bad: true, Space: "bad-allow-list"})
 	}
 	items = append(items, blankNameWorkload(rec, rng)...)
+	items = append(items, repeatedNameWorkload(rec, rng)...)
 	items = append(items,
 		cfgSpec{Kind: "ws", Table: []string{"a", "ab"}, Allows: [][]string{{"a"}, {"zz"}}, Bad: true, Space: "bad-allow-list"},
 		cfgSpec{Kind: "ws", Table: []string{"a", "ab"}, Allows: [][]string{{"ab", "A"}, nil}, Bad: true, Space: "bad-allow-list"},
@@ -1745,6 +1754,111 @@ func blankNameWorkload(rec *vcommon.Rec, rng interface{ Intn(int) int }) []cfgSp
 				}
 			}
 			items = append(items, c)
+		}
+	}
+	return items
+}
+
+// repeatedList: an allow-list of length n over `distinct` different names of the table (1 <= distinct < n,
+// distinct <= len(table)): every chosen name occurs, at least one of them more than once, seeded order.
+func repeatedList(rng interface{ Intn(int) int }, table []string, n, distinct int) []string {
+	chosen := shuffled(rng, table)[:distinct]
+	out := append([]string{}, chosen...)
+	for len(out) < n {
+		out = append(out, chosen[rng.Intn(len(chosen))])
+	}
+	return shuffled(rng, out)
+}
+
+// repeatedLists: allow-lists with repeated names of every length relative to the table (shorter when the
+// table has three or more channels, equal, longer), a repeated name alone and next to others. For every
+// length the list of ONE name repeated and (when possible) lists that leave at least one channel out and
+// one that names every channel occur.
+func repeatedLists(rng interface{ Intn(int) int }, table []string, perLen int) [][]string {
+	var out [][]string
+	for n := 2; n <= len(table)+2; n++ {
+		out = append(out, repeatedList(rng, table, n, 1))
+		maxD := n - 1
+		if maxD > len(table) {
+			maxD = len(table)
+		}
+		for k := 1; k < perLen && maxD >= 2; k++ {
+			d := 2 + rng.Intn(maxD-1)
+			if k == 1 && maxD > 2 && maxD == len(table) {
+				d = 2 + rng.Intn(maxD-2) // at least one channel stays unnamed
+			}
+			out = append(out, repeatedList(rng, table, n, d))
+		}
+	}
+	return out
+}
+
+// repeatedNameWorkload: allow-lists are sequences, not sets - the same configured name more than once
+// (lists put together from several sources). Every name of such a list is configured, so start-up must
+// succeed and the endpoint exposes exactly the names that occur in the list, however often they occur
+// and however long the list is compared with the table.
+func repeatedNameWorkload(rec *vcommon.Rec, rng interface{ Intn(int) int }) []cfgSpec {
+	var items []cfgSpec
+	const sp = "repeated-allow-entry"
+	// tcp, two channels: [p,p] [q,q] (length of the table), every list of length three, two of length four
+	tables2 := sequences(2)
+	if !rec.Thorough() {
+		tables2 = nil
+		all := sequences(2)
+		for i := 0; i < 20; i++ {
+			tables2 = append(tables2, all[rng.Intn(len(all))])
+		}
+	}
+	for _, tb := range tables2 {
+		p, q := tb[0], tb[1]
+		als := [][]string{{p, p}, {q, q}, {p, p, p}, {q, q, q}, {p, p, q}, {p, q, p}, {q, p, p}, {p, q, q}, {q, p, q}, {q, q, p},
+			repeatedList(rng, tb, 4, 1), repeatedList(rng, tb, 4, 2)}
+		items = append(items, cfgSpec{Kind: "tcp", Table: tb, Allows: als, Space: sp})
+		// websocket: a repeated list of the table's length on one path, all / a proper list / another repeated list on the other
+		one := [][]string{{p, p}, {q, q}}[rng.Intn(2)]
+		other := [][]string{nil, {q}, {p}, {q, q, p}, {p, p}, {q, q}}[rng.Intn(6)]
+		if rng.Intn(2) == 0 {
+			items = append(items, cfgSpec{Kind: "ws", Table: tb, Allows: [][]string{one, other}, Space: sp})
+		} else {
+			items = append(items, cfgSpec{Kind: "ws", Table: tb, Allows: [][]string{other, one}, Space: sp})
+		}
+	}
+	// one channel: the list can only be longer than the table
+	for i := 0; i < rec.Pick(2, 8); i++ {
+		tb := []string{pool[rng.Intn(len(pool))]}
+		items = append(items, cfgSpec{Kind: "tcp", Table: tb, Allows: [][]string{{tb[0], tb[0]}, {tb[0], tb[0], tb[0]}}, Space: sp})
+	}
+	// three to five channels, every kind: lists shorter than, as long as and longer than the table
+	for _, k := range []struct {
+		kind      string
+		n, perLen int
+		max       int
+	}{{"tcp", rec.Pick(4, 24), 3, 0}, {"unix", rec.Pick(4, 24), 3, 0}, {"ws", rec.Pick(4, 20), 2, 2}, {"udp", rec.Pick(2, 8), 2, 3}, {"stdio", rec.Pick(2, 10), 2, 3}, {"dns", rec.Pick(1, 4), 2, 1}} {
+		for i := 0; i < k.n; i++ {
+			tb := shuffled(rng, pool)[:2+rng.Intn(4)]
+			if k.kind == "dns" {
+				tb = tb[:2+rng.Intn(2)]
+			}
+			als := repeatedLists(rng, tb, k.perLen)
+			if k.max > 0 {
+				// always a list of the table's length that leaves a channel out; the others seeded
+				d := 1
+				if len(tb) > 2 {
+					d = 1 + rng.Intn(len(tb)-1)
+				}
+				sel := [][]string{repeatedList(rng, tb, len(tb), d)}
+				for len(sel) < k.max {
+					sel = append(sel, als[rng.Intn(len(als))])
+				}
+				if k.kind == "ws" && i%3 == 0 {
+					sel[1] = nil
+				}
+				if k.kind == "ws" && i%2 == 1 {
+					sel[0], sel[1] = sel[1], sel[0]
+				}
+				als = sel
+			}
+			items = append(items, cfgSpec{Kind: k.kind, Table: tb, Allows: als, Space: sp})
 		}
 	}
 	return items
